@@ -45,13 +45,18 @@ Np_Topics     == {<<"a">>, <<"a", "b">>, <<"acc", "A">>, <<"acc", "B">>, <<"a", 
 Npq_Topics    == {<<"a">>, <<"acc", "A">>, <<"acc", "B">>, <<"a", "">>}
 Np_Member     == {<<"A", "X">>, <<"B", "X">>}
 
-\* ---- thorough node config
+\* ---- thorough node configs: (nt) three streams - two of one peer (reconnect) and another account - on one space;
+\*      (nt2) two accounts on two spaces
 Nt_StreamAcct == <<"A", "A", "B">>
 Nt_StreamPeer == <<"pA", "pA", "pB">>
-Nt_SubFrames  == {<<>>, <<pA>>, <<pA, pS>>, <<pBad>>}
+Nt_SubFrames  == {<<>>, <<pA>>, <<pA, pS>>}
 Nt_Unsub      == {{}, {pA}}
 Nt_Topics     == {<<"a">>, <<"b">>}
-Nt_Member     == {<<"A", "X">>, <<"B", "X">>, <<"A", "Y">>}
+Nt_Member     == {<<"A", "X">>, <<"B", "X">>}
+Nt2_SubFrames == {<<>>, <<pA>>, <<pA, pS>>}
+Nt2_Unsub     == {{}, {pA}}
+Nt2_Topics    == {<<"a">>, <<"b">>}
+Nt2_Member    == {<<"A", "X">>, <<"B", "X">>, <<"A", "Y">>}
 
 \* ---- client half
 C_LocalPats == {<<"X", pA>>, <<"X", pS>>, <<"X", pAcc>>, <<"X", pBad>>}
